@@ -31,9 +31,9 @@ ASSUMPTIONS = [
     'advertiser reaching each scanner',
 ]
 MIN_EVENTS = {
-    'quick': {'connections_checked': 300, 'payloads_checked': 1400, 'disconnections_checked': 200,
-              'adv_events_checked': 300, 'steal_cases': 50, 'churn_cases': 50, 'fragadv_cases': 20},
-    'thorough': {'connections_checked': 5000, 'payloads_checked': 22000, 'disconnections_checked': 4000,
+    'quick': {'connections_checked': 1500, 'payloads_checked': 8000, 'disconnections_checked': 1000,
+              'adv_events_checked': 2000, 'steal_cases': 120, 'churn_cases': 200, 'fragadv_cases': 60},
+    'thorough': {'connections_checked': 10000, 'payloads_checked': 60000, 'disconnections_checked': 7000,
                  'adv_events_checked': 6000, 'steal_cases': 1000, 'churn_cases': 1000, 'fragadv_cases': 400},
 }
 CASE_TIMEOUT = 300
@@ -42,17 +42,17 @@ CID = 0x0074
 
 def plan(tier, seed):
     cases = []
-    for i in range(240 if tier == 'quick' else 3200):
+    for i in range(600 if tier == 'quick' else 4000):
         cases.append({'kind': 'mesh', 'seed': seed * 1000003 + i})
-    for i in range(40 if tier == 'quick' else 800):
+    for i in range(100 if tier == 'quick' else 800):
         cases.append({'kind': 'steal', 'seed': seed * 1000003 + i})
-    for i in range(60 if tier == 'quick' else 1200):
+    for i in range(200 if tier == 'quick' else 1600):
         cases.append({'kind': 'scan', 'seed': seed * 1000003 + i})
-    for i in range(80 if tier == 'quick' else 1600):
+    for i in range(300 if tier == 'quick' else 2400):
         cases.append({'kind': 'churn', 'seed': seed * 1000003 + i})
-    for i in range(30 if tier == 'quick' else 600):
+    for i in range(80 if tier == 'quick' else 600):
         cases.append({'kind': 'parallel', 'seed': seed * 1000003 + i})
-    for i in range(40 if tier == 'quick' else 800):
+    for i in range(120 if tier == 'quick' else 800):
         cases.append({'kind': 'fragadv', 'seed': seed * 1000003 + i})
     return cases
 
